@@ -64,3 +64,29 @@ Lemma known_module_text_refuted :
   let t := bs "[tcp:request]x]" in
   known_db t = true /\ spec_load t = VErr /\ (exists d, load t = Some d).
 Proof. vm_compute. repeat split. eexists; reflexivity. Qed.
+
+(* ---------- known class C06-unknown-item-skipped: witnesses ---------- *)
+(* a misspelt module header: p0f.fp has no such module, the text is not a database; the loader returns an
+   empty database (label and signature dropped) *)
+Lemma known_unknown_module_refuted :
+  let t := bs "[tcp:reqeust]
+label = s:unix:Linux:
+sig = *:64:0:*:*,*:::0" in
+  known_unknown_item t = true /\ known_db t = true /\ spec_load t = VErr /\
+  (exists d, load t = Some d /\ table_counts (db_tcp_request d) = (0, 0)%nat).
+Proof. vm_compute. repeat split. eexists; split; reflexivity. Qed.
+(* a misspelt key inside a module: the signature is dropped, the label stays *)
+Lemma known_unknown_key_refuted :
+  let t := bs "[tcp:request]
+label = s:unix:Linux:
+sgi = *:64:0:*:*,*:::0" in
+  known_unknown_item t = true /\ known_db t = true /\ spec_load t = VErr /\
+  (exists d, load t = Some d /\ table_counts (db_tcp_request d) = (1, 0)%nat).
+Proof. vm_compute. repeat split. eexists; split; reflexivity. Qed.
+(* the same two texts spelt correctly are databases, read alike by both sides *)
+Lemma unknown_item_contrast :
+  let t := bs "[tcp:request]
+label = s:unix:Linux:
+sig = *:64:0:*:*,*:::0" in
+  known_db t = false /\ (exists d, spec_load t = VOk d /\ load t = Some d /\ table_counts (db_tcp_request d) = (1, 1)%nat).
+Proof. vm_compute. split; [reflexivity|]. eexists; repeat split; reflexivity. Qed.
